@@ -669,9 +669,25 @@ func (a *vzAdv) injectReplay() {
 	for k, v := range ch.Proof.Proofs {
 		proof.Proofs[k] = append([]gcrypto.SparseSignature(nil), v...)
 	}
-	kind := s.Choose("replay-kind", 5)
+	kind := s.Choose("replay-kind", 6)
 	desc, expect := "genuine committed header", "valid-replay"
 	switch kind {
+	case 5: // the genuine header and certificate, but a validator list altered in transit (hashes intact)
+		if s.Pct("replay-tamper-next", 60) {
+			nvs := hdr.NextValidatorSet
+			nvs.Validators = append([]tmconsensus.Validator(nil), nvs.Validators...)
+			nvs.PubKeys = append([]gcrypto.PubKey(nil), nvs.PubKeys...)
+			nvs.Validators[s.Choose("vi", len(nvs.Validators))].Power += 1_000_000
+			hdr.NextValidatorSet = nvs
+			desc, expect = "genuine header and certificate, next validator list altered in transit (hashes intact)", "tampered-valset-replay"
+		} else {
+			vs := hdr.ValidatorSet
+			vs.Validators = append([]tmconsensus.Validator(nil), vs.Validators...)
+			vs.PubKeys = append([]gcrypto.PubKey(nil), vs.PubKeys...)
+			vs.Validators[s.Choose("vi", len(vs.Validators))].Power += 1_000_000
+			hdr.ValidatorSet = vs
+			desc, expect = "genuine header and certificate, validator list altered in transit (hashes intact)", "tampered-valset-replay"
+		}
 	case 1: // certified only by keys that are not validators, with a self-consistent foreign validator set
 		hdr.ValidatorSet = a.foreignVals
 		hdr.NextValidatorSet = a.foreignVals
